@@ -327,7 +327,10 @@ def section_history():
         for s, i, j, n in idxs:
             _, out, _, _ = _lazy_problem(hermitian, nparam=1)
             ref[(s, i, j, n)] = out[s][i, j, n]
-        for seed in range(4):
+        import os as _os
+        _th = _os.environ.get("VERIF_TIER", "quick") == "thorough"
+        _base = 100 * int(_os.environ.get("VERIF_SEED", "0") or 0) if _th else 0
+        for seed in range(_base, _base + (16 if _th else 4)):
             cases += 1
             _, out, _, _ = _lazy_problem(hermitian, nparam=1)
             rnd = random.Random(seed)
